@@ -344,6 +344,23 @@ def _simplex(prog, fn):
   p2 += _bad(_val(d, 'lower_corner_coordinates', 1), 'cap of the lower corner',
              'tf.minimum(lower_corner_coordinates, np.array(lattice_sizes) - '
              '2)')
+  # the corner indexes the kernel: it needs a cap from below as well, inputs
+  # are only clipped when clip_inputs is on
+  floor_ok = False
+  for st in d.get('lower_corner_coordinates', []):
+    v = st.value
+    ext = _ext(prog, fn, v) or ''
+    if ext.endswith('maximum') and len(v.args) == 2 and 0 in (
+        const_value(v.args[0], None), const_value(v.args[1], None)):
+      floor_ok = True
+    if ext.endswith('clip_by_value') and len(v.args) >= 2 and const_value(
+        v.args[1], None) == 0:
+      floor_ok = True
+  if not floor_ok:
+    p2.append('the lower corner is capped from above (size - 2) but not from '
+              'below: with clip_inputs=False a coordinate <= -1 gives a '
+              'negative vertex index (InvalidArgumentError in the gather, or '
+              'an unrelated vertex)')
   p2 += _bad(_val(d, 'lower_corner_offset'), 'lower-corner offset',
              'tf.reduce_sum(lower_corner_coordinates * strides, axis=-1, '
              'keepdims=True)')
